@@ -44,6 +44,7 @@ type verifRecSub struct {
 	handlerPop     bool
 	handlerPubs    [][3]int
 	handlerInvoked int
+	handlerOffsets []string
 }
 
 type verifRecScenario struct {
@@ -127,6 +128,27 @@ func (s *verifRecScenario) publish(tag, size, ttl int) (StreamPosition, error) {
 	return res.StreamPosition, err
 }
 
+// peek reports the broker's retained list without going through History (which would create the
+// stream and refresh its meta deadline): `-` or top/epoch/len/first/last.
+func (s *verifRecScenario) peek() string {
+	mb, ok := s.node.broker.(*MemoryBroker)
+	if !ok {
+		return "?"
+	}
+	mb.historyHub.RLock()
+	defer mb.historyHub.RUnlock()
+	stream, ok := mb.historyHub.streams[verifRecChannel]
+	if !ok {
+		return "-"
+	}
+	items, top, _ := stream.Get(0, false, -1, false)
+	var lo, hi uint64
+	if len(items) > 0 {
+		lo, hi = items[0].Offset, items[len(items)-1].Offset
+	}
+	return fmt.Sprintf("%d/%d/%d/%d/%d", top, s.epochIndex(stream.Epoch()), len(items), lo, hi)
+}
+
 func (s *verifRecScenario) start(meta, limit int) error {
 	node, err := New(Config{
 		LogLevel:                    LogLevelNone,
@@ -168,9 +190,11 @@ func (s *verifRecScenario) cacheEmpty(e CacheEmptyEvent) (CacheEmptyReply, error
 	cur := s.cur
 	cur.handlerInvoked++
 	for _, p := range cur.handlerPubs {
-		if _, err := s.publish(p[0], p[1], p[2]); err != nil {
+		sp, err := s.publish(p[0], p[1], p[2])
+		if err != nil {
 			return CacheEmptyReply{}, err
 		}
+		cur.handlerOffsets = append(cur.handlerOffsets, strconv.FormatUint(sp.Offset, 10))
 	}
 	if cur.handlerErr {
 		return CacheEmptyReply{}, errors.New("scripted cache empty error")
@@ -242,6 +266,7 @@ func (s *verifRecScenario) sub(ws []string) string {
 		s.node.OnCacheEmpty(nil)
 	}
 
+	pre := s.peek()
 	ctx, cancelFn := context.WithCancel(context.Background())
 	transport := newTestTransport(cancelFn)
 	client, _, err := NewClient(SetCredentials(ctx, &Credentials{UserID: "verif"}), s.node, transport)
@@ -317,7 +342,7 @@ func (s *verifRecScenario) sub(ws []string) string {
 	}
 	_ = client.close(DisconnectForceNoReconnect)
 	synctest.Wait()
-	return out
+	return fmt.Sprintf("%s pre=%s post=%s hi=%d hp=%s", out, pre, s.peek(), cur.handlerInvoked, strings.Join(cur.handlerOffsets, ","))
 }
 
 func (s *verifRecScenario) step(line string) (res string) {
